@@ -27,7 +27,7 @@ NextMsg(q) == Min(q[1].left, q[1].mss)
 PopMsg(q) == IF q[1].left <= q[1].mss THEN Tail(q) ELSE <<[q[1] EXCEPT !.left = @ - q[1].mss]>> \o Tail(q)
 
 Init == /\ l = 1
-        /\ cf = [cipher |-> "nil", d |-> 0, p |-> 0, stream |-> TRUE, closemid |-> FALSE, faulty |-> FALSE, clean |-> FALSE]
+        /\ cf = [cipher |-> "nil", d |-> 0, p |-> 0, stream |-> TRUE, closemid |-> FALSE, faulty |-> FALSE, clean |-> FALSE, nodelay |-> 0]
         /\ exp = [c \in Conns |-> <<>>] /\ rdoff = [c \in Conns |-> 0]
         /\ fec = [f \in {} |-> 0] /\ pf = -2 /\ en = -1 /\ rem = [c \in Conns |-> 0]
 
@@ -36,7 +36,7 @@ Next ==
   /\ LET t == Trace[l] IN
      IF t.ev = "reset"
        THEN /\ cf' = [cipher |-> t.cfg.cipher, d |-> t.cfg.d, p |-> t.cfg.p, stream |-> t.cfg.stream, closemid |-> t.closemid,
-                      faulty |-> t.faulty, clean |-> t.clean]
+                      faulty |-> t.faulty, clean |-> t.clean, nodelay |-> t.cfg.nodelay]
             /\ exp' = [c \in Conns |-> <<>>] /\ rdoff' = [c \in Conns |-> 0] /\ fec' = [f \in {} |-> 0] /\ pf' = -2 /\ en' = -1
             /\ rem' = [c \in Conns |-> 0]
        ELSE
@@ -85,7 +85,8 @@ C04_WriteAdmission == Is("wadmit") => Obs.waitsnd < Obs.sndwnd
 (* up, receive window >= min(send window, 32)): no data segment is on the wire twice, the retransmission counter does not move      *)
 C18_SessNoRetransOnCleanPath == Is("end") /\ cf.clean => Obs.retrans = 0 /\ Obs.wire_resent = 0
 (* the RTO a session reports, sampled throughout every run *)
-C18_SessRtoBounds == Is("bounds") => Obs.minrto <= Obs.rto /\ Obs.rto <= 60000
+(* (the minimum is the configured one: 30 ms in no-delay mode, 100 ms otherwise) *)
+C18_SessRtoBounds == Is("bounds") => Obs.minrto <= Obs.rto /\ Obs.rto <= 60000 /\ (IF cf.nodelay # 0 THEN 30 ELSE 100) <= Obs.rto
 
 (* ---- C09: frame layout, FEC numbering, nonce freshness ---- *)
 C09_Layout == Genuine => /\ Obs.cryptok                                  \* integrity field verifies under the reference cipher
